@@ -30,6 +30,7 @@ type callsScen struct {
 	DeclB   string              `json:"declB"`
 	Under   bool                `json:"under"`
 	DeclL   bool                `json:"declL"`
+	DeclH   bool                `json:"declH"`
 	GenOK   bool                `json:"genOK"`
 	Model   string              `json:"model"`
 	Ins     []json.RawMessage   `json:"ins"`
@@ -92,7 +93,10 @@ func callsSource(i int, s callsScen) string {
 	} else if s.DeclL {
 		b.WriteString("\t// goverter:useZeroValueOnPointerInconsistency\n\tConvL(source []*int) []int\n")
 	}
-	b.WriteString("}\n\ntype NI int\ntype LP []*int\n")
+	if s.DeclH {
+		b.WriteString("\tTail(source H) H2\n")
+	}
+	b.WriteString("}\n\ntype NI int\ntype LP []*int\ntype H struct{ F *B }\ntype H2 struct{ F *B2 }\n")
 	b.WriteString("\nvar faults bool\n\nfunc SetFaults(on bool) { faults = on }\n\ntype ErrInj struct{ Tok string }\n\nfunc (e ErrInj) Error() string { return \"inj:\" + e.Tok }\n\n")
 	b.WriteString("func tok(v int) string {\n\tswitch v {\n\tcase 0:\n\t\treturn \"z\"\n\tcase math.MinInt:\n\t\treturn \"a\"\n\tcase math.MaxInt:\n\t\treturn \"b\"\n\t}\n\treturn \"?\"\n}\n\n")
 	eparams, mark := "v int", "\"E(\" + tok(v) + \")\""
@@ -384,7 +388,7 @@ func cmdCalls(args []string) {
 	defer obs.Close()
 	base := func(i int) map[string]any {
 		s := scens[i]
-		return map[string]any{"id": i, "dir": s.Dir, "extId": s.ExtId, "wrap": s.Wrap, "shape": s.Shape, "rootErr": s.RootErr, "extErr": s.ExtErr, "rootCtx": s.RootCtx, "extCtx": s.ExtCtx, "declB": s.DeclB, "under": s.Under, "declL": s.DeclL}
+		return map[string]any{"id": i, "dir": s.Dir, "extId": s.ExtId, "wrap": s.Wrap, "shape": s.Shape, "rootErr": s.RootErr, "extErr": s.ExtErr, "rootCtx": s.RootCtx, "extCtx": s.ExtCtx, "declB": s.DeclB, "under": s.Under, "declL": s.DeclL, "declH": s.DeclH}
 	}
 	nOK := 0
 	for i := range scens {
